@@ -2147,6 +2147,288 @@ func genC16(p *Pkg) (map[string]string, error) {
 		wp("calleeParamUse", uses)
 	}
 
+	// ---- strictness of scopes and the strict/sloppy plumbing of direct eval (Scopes.lean)
+	{
+		var strictSites []pair
+		var evalBranch, compilePlumbing []string
+		for _, fn := range fileNames {
+			for _, d := range p.Files[fn].Decls {
+				fd, ok := d.(*ast.FuncDecl)
+				if !ok || fd.Body == nil {
+					continue
+				}
+				name := fd.Name.Name
+				if _, typ, _ := recvInfo(fd); typ != "" {
+					name = typ + "." + name
+				}
+				var ifs []*ast.IfStmt
+				var visit func(n ast.Node) bool
+				visit = func(n ast.Node) bool {
+					switch x := n.(type) {
+					case *ast.IfStmt:
+						// the branch that chooses callEvalStrict
+						if strings.Contains(g.str(x.Cond), "scope.strict") && strings.Contains(g.str(x.Body), "callEvalStrict") {
+							evalBranch = append(evalBranch, name+": "+g.str(x))
+						}
+						if name == "compiler.compile" && strings.Contains(g.str(x.Body), "bindVars{") && !strings.Contains(g.str(x.Cond), "inGlobal") {
+							compilePlumbing = append(compilePlumbing, "if "+g.str(x.Cond))
+						}
+						ifs = append(ifs, x)
+						if x.Init != nil {
+							ast.Inspect(x.Init, visit)
+						}
+						ast.Inspect(x.Body, visit)
+						ifs = ifs[:len(ifs)-1]
+						if x.Else != nil {
+							ast.Inspect(x.Else, visit)
+						}
+						return false
+					case *ast.AssignStmt:
+						for _, l := range x.Lhs {
+							if sel, ok := l.(*ast.SelectorExpr); ok && sel.Sel.Name == "strict" && strings.HasPrefix(fn, "compiler") { // scope.strict: only the compiler has scopes
+								txt := g.str(x)
+								if len(ifs) > 0 && strings.Contains(g.str(ifs[len(ifs)-1].Cond), "strict") {
+									txt = "if " + g.str(ifs[len(ifs)-1].Cond) + " { " + txt + " }"
+								}
+								strictSites = append(strictSites, pair{name, txt})
+							}
+						}
+						if name == "compiler.compile" && len(x.Lhs) == 1 {
+							if id, ok := x.Lhs[0].(*ast.Ident); ok && id.Name == "ownVarScope" {
+								compilePlumbing = append(compilePlumbing, g.str(x))
+							}
+						}
+					}
+					return true
+				}
+				ast.Inspect(fd.Body, visit)
+			}
+		}
+		if len(strictSites) == 0 || len(evalBranch) == 0 || len(compilePlumbing) < 2 {
+			return nil, fmt.Errorf("strictness sites / eval branch / compile plumbing not found (%d, %d, %d)", len(strictSites), len(evalBranch), len(compilePlumbing))
+		}
+		wp("strictSites", strictSites)
+		wl := func(name string, l []string) {
+			fmt.Fprintf(&b, "def %s : List String := [", name)
+			for i, x := range l {
+				if i > 0 {
+					b.WriteString(", ")
+				}
+				b.WriteString(LeanString(x))
+			}
+			b.WriteString("]\n\n")
+		}
+		wl("evalStrictBranch", evalBranch)
+		wl("compileEvalPlumbing", compilePlumbing)
+		for _, it := range [][3]string{{"compiler", "newScope", "body_newScope"}, {"callEval", "exec", "body_callEval_exec"}, {"callEvalStrict", "exec", "body_callEvalStrict_exec"},
+			{"_callEvalVariadic", "exec", "body_callEvalVariadic_exec"}, {"_callEvalVariadicStrict", "exec", "body_callEvalVariadicStrict_exec"}} {
+			l, err := body(it[0], it[1])
+			if err != nil {
+				return nil, err
+			}
+			wl(it[2], l)
+		}
+	}
+
+	// ---- everything else that is reachable from a Program through goja's own struct types (source map items, nested
+	// Programs, regexp patterns with their wrappers and match caches, private-name records, every instruction struct):
+	// for each field whose NAME is declared by exactly one struct type of the package, the functions that assign it.
+	{
+		reach := map[string]bool{"Program": true}
+		queue := []string{"Program"}
+		for _, e := range ems {
+			if !reach[e.ty] {
+				reach[e.ty] = true
+				queue = append(queue, e.ty)
+			}
+		}
+		var namedIn func(t ast.Expr, out *[]string)
+		namedIn = func(t ast.Expr, out *[]string) {
+			switch x := t.(type) {
+			case *ast.Ident:
+				*out = append(*out, x.Name)
+			case *ast.StarExpr:
+				namedIn(x.X, out)
+			case *ast.ArrayType:
+				namedIn(x.Elt, out)
+			case *ast.MapType:
+				namedIn(x.Key, out)
+				namedIn(x.Value, out)
+			}
+		}
+		for len(queue) > 0 {
+			tn := queue[0]
+			queue = queue[1:]
+			u := g.types[tn]
+			for i := 0; i < 4; i++ { // type A B
+				if id, ok := u.(*ast.Ident); ok {
+					u = g.types[id.Name]
+					if !reach[id.Name] && g.types[id.Name] != nil {
+						reach[id.Name] = true
+					}
+				}
+			}
+			st, ok := u.(*ast.StructType)
+			if !ok {
+				continue
+			}
+			for _, f := range st.Fields.List {
+				var ns []string
+				namedIn(f.Type, &ns)
+				for _, n := range ns {
+					if _, isStruct := g.types[n].(*ast.StructType); isStruct && !reach[n] {
+						reach[n] = true
+						queue = append(queue, n)
+					} else if id, ok := g.types[n].(*ast.Ident); ok && !reach[n] { // named alias of a struct
+						if _, isStruct := g.types[id.Name].(*ast.StructType); isStruct {
+							reach[n] = true
+							queue = append(queue, n)
+						}
+					}
+				}
+			}
+		}
+		// field name -> declaring struct types (whole package)
+		decl := map[string][]string{}
+		var tnames []string
+		for tn := range g.types {
+			tnames = append(tnames, tn)
+		}
+		sort.Strings(tnames)
+		for _, tn := range tnames {
+			if st, ok := g.types[tn].(*ast.StructType); ok {
+				for _, f := range st.Fields.List {
+					for _, n := range f.Names {
+						decl[n.Name] = append(decl[n.Name], tn)
+					}
+				}
+			}
+		}
+		unique := map[string]string{} // field -> reachable type
+		ambiguous := 0
+		for f, ts := range decl {
+			if len(ts) == 1 && reach[ts[0]] {
+				unique[f] = ts[0]
+			} else {
+				for _, t := range ts {
+					if reach[t] {
+						ambiguous++
+						break
+					}
+				}
+			}
+		}
+		type rw struct{ file, fn, field string }
+		var rws []rw
+		seenRW := map[rw]bool{}
+		for _, fn := range fileNames {
+			for _, d := range p.Files[fn].Decls {
+				fd, ok := d.(*ast.FuncDecl)
+				if !ok || fd.Body == nil {
+					continue
+				}
+				name := fd.Name.Name
+				if _, typ, _ := recvInfo(fd); typ != "" {
+					name = typ + "." + name
+				}
+				tgt := func(l ast.Expr) {
+					e := l
+					for {
+						switch x := e.(type) {
+						case *ast.IndexExpr:
+							e = x.X
+							continue
+						case *ast.SliceExpr:
+							e = x.X
+							continue
+						case *ast.ParenExpr:
+							e = x.X
+							continue
+						case *ast.StarExpr:
+							e = x.X
+							continue
+						}
+						break
+					}
+					// every selector on the way down is written "through"
+					for {
+						sel, ok := e.(*ast.SelectorExpr)
+						if !ok {
+							return
+						}
+						if t, ok := unique[sel.Sel.Name]; ok {
+							k := rw{fn, name, t + "." + sel.Sel.Name}
+							if !seenRW[k] {
+								seenRW[k] = true
+								rws = append(rws, k)
+							}
+						}
+						e = sel.X
+						through := false
+						for {
+							switch x := e.(type) {
+							case *ast.IndexExpr:
+								e = x.X
+								through = true
+								continue
+							case *ast.ParenExpr:
+								e = x.X
+								continue
+							case *ast.StarExpr:
+								e = x.X
+								through = true
+								continue
+							}
+							break
+						}
+						// the outermost selector is the field being assigned; an inner one is written "through" only if it was
+						// indexed / dereferenced on the way (x.srcMap[0].pc = …  writes an element of srcMap)
+						if !through {
+							return
+						}
+					}
+				}
+				ast.Inspect(fd.Body, func(n ast.Node) bool {
+					switch x := n.(type) {
+					case *ast.AssignStmt:
+						if x.Tok == token.DEFINE {
+							return true
+						}
+						for _, l := range x.Lhs {
+							tgt(l)
+						}
+					case *ast.IncDecStmt:
+						tgt(x.X)
+					case *ast.CallExpr:
+						if id, ok := x.Fun.(*ast.Ident); ok && (id.Name == "delete" || id.Name == "clear" || id.Name == "copy") && len(x.Args) > 0 {
+							tgt(x.Args[0])
+						}
+					}
+					return true
+				})
+			}
+		}
+		var rts []string
+		for t := range reach {
+			if _, ok := g.types[t]; ok {
+				rts = append(rts, t)
+			}
+		}
+		sort.Strings(rts)
+		fmt.Fprintf(&b, "def reachableTypeCount : Nat := %d\n\n", len(rts))
+		fmt.Fprintf(&b, "def reachableUniqueFields : Nat := %d\n\n", len(unique))
+		fmt.Fprintf(&b, "def reachableAmbiguousFields : Nat := %d\n\n", ambiguous)
+		b.WriteString("def reachableFieldWrites : List FieldWrite := [\n")
+		for i, x := range rws {
+			sep := ","
+			if i == len(rws)-1 {
+				sep = ""
+			}
+			fmt.Fprintf(&b, "  { file := %s, fn := %s, field := %s }%s\n", LeanString(x.file), LeanString(x.fn), LeanString(x.field), sep)
+		}
+		b.WriteString("]\n\n")
+	}
+
 	// Symbol struct
 	syt, ok := g.types["Symbol"].(*ast.StructType)
 	if !ok {
